@@ -31,6 +31,9 @@ BENIGN = {
     "benign_B10": ["C01", "C16", "C17", "C11", "C12", "C15", "C19"],
     "benign_B11": ["C12", "C15", "C16", "C13", "C18", "C19", "C01"],
     "benign_B12": ["C05", "C06", "C07", "C08", "C09", "C10", "C11", "C02", "C03", "C04"],
+    "benign_B13": ["C19", "C11", "C01", "C17", "C02", "C03", "C04"],
+    "benign_B14": ["C05", "C06", "C07", "C08", "C09", "C10", "C11"],
+    "benign_B15": ["C15", "C16", "C13", "C18", "C17", "C01", "C19"],
 }
 # seeds that are, correctly, not reported (they do not break the property on its domain)
 EXPECT_QUIET = {"C13e"}
